@@ -65,8 +65,11 @@ func (r replaySrc) U64() uint64 { return r.next() }
 
 // ValCfg selects value features.
 type ValCfg struct {
-	HostileFloats bool // NaN / ±Inf
-	HostileNumber bool // arbitrary json.Number text
+	HostileF32    bool // NaN / ±Inf in float32
+	HostileF64    bool // NaN / ±Inf in float64
+	HostileNumber bool // ill-formed json.Number text
+	ASCII         bool // strings are printable ASCII plus the characters needing escapes
+	Custom        map[reflect.Type]func(Src, ValCfg) reflect.Value // type-specific builders (hostile marshalers)
 	MaxLen        int  // max slice/map length (default 3)
 	NaturalIface  bool // interface{} holds only JSON-natural values (float64,string,bool,nil,[]interface{},map[string]interface{})
 	ValidUTF8     bool // strings are valid UTF-8
@@ -122,6 +125,10 @@ func maxLen(c ValCfg) int {
 
 func fill(v reflect.Value, s Src, c ValCfg, depth int) {
 	t := v.Type()
+	if f, ok := c.Custom[t]; ok {
+		v.Set(f(s, c))
+		return
+	}
 	switch t {
 	case numberType:
 		v.SetString(numberText(s, c))
@@ -141,11 +148,11 @@ func fill(v reflect.Value, s Src, c ValCfg, depth int) {
 	case reflect.Uint, reflect.Uint8, reflect.Uint16, reflect.Uint32, reflect.Uint64, reflect.Uintptr:
 		v.SetUint(UintValue(s, t.Bits()))
 	case reflect.Float32:
-		v.SetFloat(float64(float32(FloatValue(s, 32, c.HostileFloats))))
+		v.SetFloat(float64(float32(FloatValue(s, 32, c.HostileF32))))
 	case reflect.Float64:
-		v.SetFloat(FloatValue(s, 64, c.HostileFloats))
+		v.SetFloat(FloatValue(s, 64, c.HostileF64))
 	case reflect.String:
-		v.SetString(StringValue(s, c.ValidUTF8))
+		v.SetString(StringValueC(s, c))
 	case reflect.Ptr:
 		if !c.NoNil && s.Intn(4) == 0 && !inTypes(c.NoNilPtrTo, t.Elem()) {
 			return
@@ -261,7 +268,7 @@ func fillIface(v reflect.Value, s Src, c ValCfg, depth int) {
 	case 1:
 		v.Set(reflect.ValueOf(FloatValue(s, 64, false)))
 	case 2:
-		v.Set(reflect.ValueOf(StringValue(s, c.ValidUTF8)))
+		v.Set(reflect.ValueOf(StringValueC(s, c)))
 	case 3:
 		v.Set(reflect.ValueOf(s.Intn(2) == 1))
 	case 4:
@@ -380,8 +387,9 @@ var floatTable = []float64{0, math.Copysign(0, -1), 1, -1, 0.1, 0.5, 1.5, -2.5, 
 // FloatValue draws a boundary-biased float.
 func FloatValue(s Src, bits int, hostile bool) float64 {
 	k := s.Intn(6)
-	if hostile && s.Intn(4) == 0 {
-		return []float64{math.NaN(), math.Inf(1), math.Inf(-1)}[s.Intn(3)]
+	h, hh := s.Intn(4), s.Intn(3) // always drawn, so that a recipe rebuilds with or without hostile values
+	if hostile && h == 0 {
+		return []float64{math.NaN(), math.Inf(1), math.Inf(-1)}[hh]
 	}
 	var f float64
 	switch k {
@@ -412,6 +420,21 @@ var strPieces = []string{"a", "b", "z", "A", "0", " ", "_", "-", ".", "/", "'", 
 	"\"", "\\", "<", ">", "&", "\n", "\t", "\r", "\b", "\f", "\x00", "\x01", "\x1f", "\x7f",
 	"\u00e9", "\u00df", "\u20ac", "\u4e16", "\u2028", "\u2029", "\ufffd", "\U0001F600", "\U0001D11E", "\u0080", "\u07ff", "\u0800", "\uffff", "\U00010000", "\U0010FFFF"}
 var badPieces = []string{"\x80", "\xbf", "\xc0\xaf", "\xc3", "\xe2\x82", "\xe2\x80", "\xed\xa0\x80", "\xed\xbf\xbf", "\xf4\x90\x80\x80", "\xf0\x9f", "\xff", "\xfe", "\xc1\xbf", "\xe0\x80\x80", "\xf8\x88\x80\x80\x80"}
+
+// StringValueC draws a string under the configuration.
+func StringValueC(s Src, c ValCfg) string {
+	str := StringValue(s, c.ValidUTF8 || c.ASCII)
+	if c.ASCII {
+		b := []byte(str)
+		for i, ch := range b {
+			if ch >= 0x80 {
+				b[i] = 'u'
+			}
+		}
+		return string(b)
+	}
+	return str
+}
 
 // StringValue draws a string from byte classes, with lengths spread around the 8-byte SWAR window.
 func StringValue(s Src, validUTF8 bool) string {
@@ -447,8 +470,9 @@ var goodNumbers = []string{"0", "-0", "1", "-1", "10", "1.5", "-2.5e3", "1e10", 
 var badNumbers = []string{"", "1e", "--1", "1.", "0x1", " 1", "1 2", "+1", ".5", "1e+", "-", "01", "1.e1", "abc", "1,2", "NaN", "Infinity", "1_000", "--", "+.", "e1", "1ee1", "0.", "-.5", "1.2.3", "\"1\"", "1]", "[1]", "true"}
 
 func numberText(s Src, c ValCfg) string {
-	if c.HostileNumber && s.Intn(2) == 0 {
-		return badNumbers[s.Intn(len(badNumbers))]
+	h, hh := s.Intn(2), s.Intn(len(badNumbers)) // always drawn
+	if c.HostileNumber && h == 0 {
+		return badNumbers[hh]
 	}
 	if c.RoundTrip {
 		return goodNumbers[s.Intn(len(goodNumbers))]
